@@ -49,6 +49,7 @@ def run(tier, seed):
     # ---- segments
     segs = seg_cases(tier, rng)
     a = vlib.pmap(impl.seg, [c[:4] for c in segs])
+    chk.again('parse_segment(text, version, TOLERANT, encoding_chars).to_er7()', impl.seg, [c[:4] for c in segs], a, 500)
     mo = vlib.run_driver(['SEG %s T T %s %s' % (c[0], vlib.hexs(c[3]), vlib.hexs(c[1])) for c in segs])
     chk.correspond('parse_segment(text).to_er7() vs Hl7.Pe.segment/encSegment', segs, a, mo,
                    show=lambda c: {'version': c[0], 'text': c[1], 'ec': c[3]})
@@ -103,6 +104,8 @@ def run(tier, seed):
             cjobs.append((v, g.by_ref(ref, 1, 'canon+', False), dn, None, False, DEF))
     fa = vlib.pmap(impl.fld, fjobs)
     ca = vlib.pmap(impl.comp, cjobs)
+    chk.again('parse_field(text, name, version).to_er7()', impl.fld, fjobs, fa, 200)
+    chk.again('parse_component(text, name, version).to_er7()', impl.comp, cjobs, ca, 200)
     fm = vlib.run_driver(['FLD %s T T %s %s %s' % (j[0], vlib.hexs(DEF), j[2], vlib.hexs(j[1])) for j in fjobs] +
                          ['COMP %s T T %s %s - %s' % (j[0], vlib.hexs(DEF), j[2], vlib.hexs(j[1])) for j in cjobs])
     chk.correspond('parse_field(text, name).to_er7() vs Hl7.Pe.field/encField', fjobs, fa, fm[:len(fjobs)],
@@ -139,6 +142,7 @@ def run(tier, seed):
                     mjobs.append((t, False, fg))
                     meta.append((v, mt, names))
     ma = vlib.pmap(impl.msg, mjobs)
+    chk.again('parse_message(text, TOLERANT, find_groups).to_er7()', impl.msg, mjobs, ma, 150)
     mm = vlib.run_driver(['MSG T T 2.5 %d %s' % (1 if j[2] else 0, vlib.hexs(j[0])) for j in mjobs])
     chk.correspond('parse_message(text).to_er7() vs Hl7.Msg.parseMessage/encMessage', mjobs, ma, mm,
                    show=lambda j: {'text': j[0], 'find_groups': j[2]})
